@@ -26,6 +26,9 @@ fn all_kinds_program() -> Prog {
         // any operator token in prefix position is a Unary node: same symbol as prefix and postfix
         un("++", post(rf("a"), "++")),
         un("--", rf("zz")),
+        // references as assignment targets are references like any other
+        bin("=", rf("a"), lit_i(3)),
+        bin("+=", rf("zz"), rf("f")),
     ])
 }
 
@@ -54,6 +57,75 @@ fn single_case(k: DKind, name: &str) -> Case {
     c.pre.push(Op::Describe { prog: all_kinds_program() });
     c.pre.push(Op::Describe { prog: Prog::one(bin("-", rf("a"), un("-", lit_i(1)))) });
     c.pre.push(Op::Describe { prog: Prog::Stmts(vec![]) });
+    c
+}
+
+/// pairs of DIFFERENT trees whose expr() rendering is the same text
+fn twins() -> Vec<(Prog, Prog)> {
+    vec![
+        (Prog::one(un("-", bin("+", rf("a"), rf("f")))), Prog::one(bin("+", un("-", rf("a")), rf("f")))),
+        (Prog::one(bin("beginWith", lit_s("x"), lit_s("y"))), Prog::one(lit_s("x\" beginWith \"y"))),
+        (Prog::one(post(bin("+", rf("a"), lit_i(1)), "++")), Prog::one(bin("+", rf("a"), post(lit_i(1), "++")))),
+    ]
+}
+
+/// a program with EXACTLY ONE node rendered through the descriptor key (kind, name): describe() then
+/// makes one decisive lookup of that key, so "old or new descriptor, never neither" is exactly
+/// linearizability (a describe that looks one re-registered key up at several nodes may mix old and new;
+/// C18 does not forbid that and it is not demanded here)
+fn one_node_program(k: DKind, n: &str) -> Prog {
+    let q = || rf("q");
+    match k {
+        DKind::Unary => Prog::one(bin("*", un(n, q()), lit_i(2))),
+        DKind::Binary => Prog::one(Expr::List(vec![bin(n, q(), lit_i(2))])),
+        DKind::Postfix => Prog::one(bin("*", post(q(), n), lit_i(2))),
+        DKind::Function => Prog::one(bin("*", call(n, vec![q()]), lit_i(2))),
+        DKind::Reference => Prog::one(bin("*", rf(n), lit_i(2))),
+        DKind::Ternary => Prog::one(bin("*", tern(q(), lit_i(1), lit_i(2)), lit_i(2))),
+        DKind::List => Prog::one(bin("in", q(), Expr::List(vec![lit_i(1), lit_i(2)]))),
+        DKind::Map => Prog::one(bin("==", q(), Expr::Map(vec![(lit_s("k"), lit_i(1))]))),
+        DKind::Chain => Prog::Stmts(vec![bin("*", q(), lit_i(2)), lit_i(3)]),
+    }
+}
+
+/// describe() calls racing with RE-registrations of the one descriptor they use: every rendering
+/// must use the old or the new descriptor (linearizable against the sequential engine), never neither
+fn concurrent_describe_case(r: &mut Prng) -> Case {
+    let mut c = Case::new("concurrent-describe");
+    let named: Vec<(DKind, &str)> = vec![
+        (DKind::Unary, "-"),
+        (DKind::Unary, "!"),
+        (DKind::Binary, "-"),
+        (DKind::Binary, "+"),
+        (DKind::Postfix, "++"),
+        (DKind::Function, "f"),
+        (DKind::Reference, "zz"),
+        (DKind::Ternary, ""),
+        (DKind::List, ""),
+        (DKind::Map, ""),
+        (DKind::Chain, ""),
+    ];
+    let (k, n) = *r.pick(&named);
+    let prog = one_node_program(k, n);
+    let mut id = 1;
+    if r.chance(1, 2) {
+        c.pre.push(Op::Describe { prog: prog.clone() });
+    }
+    if r.chance(3, 4) {
+        // already registered: from now on the default rendering is never a legal answer
+        c.pre.push(Op::SetDesc { kind: k, name: n.to_string(), id });
+        id += 1;
+    }
+    let mut regs = vec![];
+    for _ in 0..(1 + r.usize(3)) {
+        regs.push(Op::SetDesc { kind: k, name: n.to_string(), id });
+        id += 1;
+    }
+    let ndesc = 1 + r.usize(2);
+    let describers: Vec<Vec<Op>> = (0..ndesc).map(|_| (0..(1 + r.usize(2))).map(|_| Op::Describe { prog: prog.clone() }).collect()).collect();
+    c.threads.push(regs);
+    c.threads.extend(describers);
+    c.post.push(Op::Describe { prog });
     c
 }
 
@@ -123,6 +195,11 @@ fn seeded_case(r: &mut Prng) -> Case {
     }
     c.pre.push(Op::Describe { prog: all_kinds_program() });
     c.pre.push(Op::Describe { prog: progs[1].clone() });
+    // different trees with the same expr() text, described one after the other
+    let (t1, t2) = r.pick(&twins()).clone();
+    let (t1, t2) = if r.chance(1, 2) { (t1, t2) } else { (t2, t1) };
+    c.pre.push(Op::Describe { prog: t1 });
+    c.pre.push(Op::Describe { prog: t2 });
     c
 }
 
@@ -147,14 +224,16 @@ impl Prop for C18 {
                    program and the empty program, describe() before and after; sampled part: seeded histories of 2..11 registrations / re-registrations \
                    interleaved with describe() of the all-kinds program and of generated programs, in a fresh simulated process (the engine used or not \
                    before the first registration); a sixth of the descriptors re-enter the engine (parse_expression + describe from inside the descriptor); in a \
-                   third of the seeded cases two simulated threads register different (kind, name) pairs concurrently under seeded schedules. evaluations = simulated executions; distinct_nontrivial = distinct histories with at least one \
+                   third of the seeded cases two simulated threads register different (kind, name) pairs concurrently under seeded schedules; every history ends by \
+                   describing two different trees whose expr() text is identical; every sixth case races describe() calls against RE-registrations of the \
+                   descriptors they use and is judged by linearizability against the sequential engine. evaluations = simulated executions; distinct_nontrivial = distinct histories with at least one \
                    registration followed by a describe() that contains a node of the registered kind",
             assumptions: &[
                 "descriptor registration is reachable only through the cfg-guarded verif_hooks re-export of DescriptorManager",
                 "the reference describe() walks the harness's own tree; literal rendering is expr()'s (numbers as written, strings in double quotes)",
             ],
             fault_kinds: &["fresh_process", "register_before_first_use", "reenter_describe", "preempt_in_call"],
-            probes: &["single_registrations_run", "binary_descriptor_used", "lookalike_name_other_kind", "re_registration", "concurrent_registrations", "same_symbol_prefix_and_postfix", "operation_on_another_thread"],
+            probes: &["single_registrations_run", "binary_descriptor_used", "lookalike_name_other_kind", "re_registration", "concurrent_registrations", "same_symbol_prefix_and_postfix", "operation_on_another_thread", "describe_races_reregistration"],
         }
     }
 
@@ -179,6 +258,28 @@ impl Prop for C18 {
             single_case(*k, n)
         } else {
             let mut r = Prng::derive(seed, "C18.case", idx);
+            if idx % 6 == 5 {
+                // concurrent describe vs re-registration: linearizability against the sequential engine
+                let case = Arc::new(concurrent_describe_case(&mut r));
+                rt.case_seen(case.fingerprint());
+                rt.probe("describe_races_reregistration");
+                let mut oracle = crate::lin::SeqOracle::new(&case);
+                let mut sr = Prng::derive(seed, "C18.sched", idx);
+                let mut decisions = 0;
+                for j in 0..16 {
+                    let spec = crate::props::c13::schedule_for(&mut sr, j, decisions);
+                    let out = rt.sim(&case, &spec);
+                    if j == 0 {
+                        decisions = out.rec.decisions;
+                    }
+                    rt.fired("preempt_in_call", out.rec.preemptions as u64);
+                    rt.fired("fresh_process", 1);
+                    if let Some((c, d)) = crate::props::c13::lin_judge(&case, &out, &mut oracle, rt, false) {
+                        return vec![violation("C18", &c, d, seed, idx, &case, &out)];
+                    }
+                }
+                return vec![];
+            }
             seeded_case(&mut r)
         };
         let case = Arc::new(case);
@@ -254,6 +355,10 @@ impl Prop for C18 {
 
     fn judge_one(&self, case: &Arc<Case>, spec: &SchedSpec, rt: &mut Rt) -> Option<(String, String)> {
         let out = rt.sim(case, spec);
+        if case.tag == "concurrent-describe" {
+            let mut oracle = crate::lin::SeqOracle::new(case);
+            return crate::props::c13::lin_judge(case, &out, &mut oracle, rt, false);
+        }
         judge(case, &out, rt)
     }
 }
